@@ -1,6 +1,7 @@
 import LapyVerif.Props.C06
 import LapyVerif.Bridge.DiffGeo
 import LapyVerif.Bridge.Fem
+import LapyVerif.Bridge.Dispatch
 /- axiom audit of C06 -/
 #print axioms LapyVerif.Props.C06.triGrad_eq_spec
 #print axioms LapyVerif.Props.C06.triGrad_char
@@ -33,3 +34,4 @@ import LapyVerif.Bridge.Fem
 #print axioms LapyVerif.Bridge.census_FemTriaMass_pcCount
 #print axioms LapyVerif.Bridge.census_FemTriaAniso_pcCount
 #print axioms LapyVerif.Bridge.census_FemTet_pcCount
+#print axioms LapyVerif.Bridge.dispatch_facts
